@@ -144,7 +144,9 @@ class C30(Check):
     exe = "driver"
     timeout = 20.0
     rule = ("(a) polynomials of degree 0-4 over Q built from chosen roots (rational incl. 0, a+-b*sqrt(c), complex pairs "
-            "a+-b*sqrt(c)*i, repeated specs) times a rational leading coefficient, or random coefficient vectors; given "
+            "a+-b*sqrt(c)*i, repeated specs) times a rational leading coefficient, random coefficient vectors, or shifted depressed quartics / cubics "
+            "q(x - h), q = y^4 + e y^2 + f y + g with f or g often 0 (the special-case branches of the quartic formula) "
+            "plus a fixed table of 30 such polynomials x 4 domains x 2 ops; given "
             "expanded, factored or as a product of two expanded parts, optionally as Eq(lhs, rhs); ops solve and "
             "solve_poly; domains UniversalSet, Reals, Interval with rational endpoints (often rational roots, open or "
             "closed). (b) rational equations N1/D1 [+ N2/D2] with common factors between numerators and denominators "
@@ -163,7 +165,12 @@ class C30(Check):
     assumptions = ["principal branches (mpmath) give the value of the radical expressions the library returns",
                    "ImageSet(n, expr, (-oo, oo)) returned by solve_trig means n ranges over the integers (TODO in solve.cpp)",
                    "a removable singularity where the cancelled function vanishes may or may not be reported"]
-    tiers = {"quick": {"examples": 6000, "shrink_calls": 120}, "thorough": {"examples": 200000, "shrink_calls": 250}}
+    tiers = {"quick": {"examples": 4000, "shrink_calls": 100}, "thorough": {"examples": 200000, "shrink_calls": 250}}
+
+    def setup_worker(self, tier):
+        # start the driver with a generous time-out: under load the first answer of a freshly started
+        # sanitizer build can take seconds, and a timed-out reproducer would look like a repaired finding
+        self.run([["integer", 1]], timeout=120)
 
     # ------------------------------------------------------------------ generation
     def strategy(self, tier):
@@ -234,14 +241,14 @@ class C30(Check):
                     yield {"kind": "poly", "coeffs": [[c, 1] for c in p], "dom": d, "op": op, "eq": None}
 
     # ------------------------------------------------------------------ helpers
-    def call(self, op, expr, dom):
+    def call(self, op, expr, dom, timeout=None):
         stmts = [["let", X], ["let", expr]]
         d = dom_recipe(dom)
         if d is None:
             stmts.append([op, R(1), R(0)])
         else:
             stmts.append([op, R(1), R(0), d])
-        res = self.run(stmts)
+        res = self.run(stmts, timeout)
         return res[-1]
 
     def declined(self, res):
@@ -546,7 +553,15 @@ class C30(Check):
         if self.tag_active("solve_trig_atan2_quadrant") and atan2_table_risk(fn, al, be, ga, a):
             self.skip("known:solve_trig_atan2_quadrant")
             return
-        res = self.call("solve", expr, dom)
+        try:
+            res = self.call("solve", expr, dom)
+        except engine.DriverTimeout:
+            # the unbounded recursion of KF-C30-02 (ImageSet intersected with a domain) can need more than
+            # the normal time-out to exhaust the stack of a sanitizer build: this class is re-run once with
+            # a long budget so that the crash, not the watchdog, decides
+            if dom[0] == "universal":
+                raise
+            res = self.call("solve", expr, dom, timeout=150)
         if self.declined(res):
             return
         got = B(res)
